@@ -54,6 +54,8 @@ pub enum Expect {
 pub enum ConstructError {
     ModeConflict { method: u8 },
     EmptyStub { method: u8 },
+    /// a single-use return value cannot be stored without a Mutex API (no std, no spin-lock)
+    NoMutexApi { method: u8 },
 }
 
 #[derive(Clone, Debug)]
@@ -183,6 +185,9 @@ pub enum Verdict {
     Unspecified,
 }
 
+/// Set by the harness when it is built against the no-mutex feature set of the library.
+pub static NO_MUTEX: std::sync::atomic::AtomicBool = std::sync::atomic::AtomicBool::new(false);
+
 pub struct Model {
     pub partial: bool,
     pub facts: &'static [MethodFacts],
@@ -217,6 +222,10 @@ impl Model {
             };
             let ordered = entry == Entry::Next;
             for spec in pats {
+                // a return value that cannot be stored is reported before anything else about the clause
+                if NO_MUTEX.load(std::sync::atomic::Ordering::Relaxed) && MPat::from_spec(spec, entry, 0).single_use_first {
+                    return Err(ConstructError::NoMutexApi { method });
+                }
                 let m = methods.entry(method).or_insert_with(|| MMethod {
                     ordered,
                     pats: vec![],
